@@ -490,6 +490,45 @@ func checkC06(r *Result) {
 			}
 		}
 	}
+	// the dispatch compares the method string exactly: the permissionless registration stores it in the dispatcher's
+	// spelling (lower case) and admits it only if that spelling is one of the supported methods
+	if rs := P.Func("(x/registry/keeper.msgServer).RegisterSpec"); rs == nil {
+		r.broken("anchor RegisterSpec does not resolve")
+	} else {
+		r.fn(FuncName(rs))
+		tmr := NewTermer()
+		normalised := P.InstrEvent(func(in ssa.Instruction) bool {
+			st, ok := in.(*ssa.Store)
+			if !ok {
+				return false
+			}
+			fa, ok := st.Addr.(*ssa.FieldAddr)
+			if !ok || fieldName(fa.X.Type(), fa.Field) != "x/registry/types.DataSpec.AggregationMethod" {
+				return false
+			}
+			v := tmr.Of(st.Val)
+			return v.Op == "call:strings.ToLower" && v.Contains("DataSpec.AggregationMethod")
+		}, T)
+		ps := AnalyzePaths(rs, []Atom{
+			{Name: "normalised", Event: normalised},
+			{Name: "supported", Stable: true, Cond: func(rel *Term) (bool, bool) {
+				// SupportedAggregationMethod[spec.AggregationMethod] (a map lookup used as condition)
+				if rel.Op == "lookup" && rel.Contains("SupportedAggregationMethod") && rel.Contains("DataSpec.AggregationMethod") && !rel.Contains("strings.") {
+					return true, true
+				}
+				return false, false
+			}},
+		})
+		n := 0
+		for _, cs := range P.CallSitesIn(rs) {
+			if cs.Callee == "(x/registry/keeper.Keeper).SetDataSpec" {
+				n++
+				bad := ps.Require(cs.Instr, func(v map[string]bool) bool { return v["normalised"] && v["supported"] })
+				r.check(len(bad) == 0 && len(ps.Matched["supported"]) > 0, "DISPATCH", "(x/registry/keeper.msgServer).RegisterSpec # a spec is stored with its aggregation method lower-cased and found, in that spelling, among the supported methods", pos(cs.Pos()), fmt.Sprintf("valuations: %v", statesStr(ps, cs.Instr)))
+			}
+		}
+		r.check(n == 1, "DISPATCH", "(x/registry/keeper.msgServer).RegisterSpec # one SetDataSpec site", pos(rs.Pos()), fmt.Sprint(n))
+	}
 	r.minCount("MEDIAN-SORT", 5)
 	r.minCount("MEDIAN-HALF", 3)
 	r.minCount("MEDIAN-SELECT", 3)
